@@ -8,6 +8,7 @@ package json
 
 import (
 	"bytes"
+	"errors"
 	"io"
 
 	"github.com/segmentio/encoding/json"
@@ -28,5 +29,15 @@ func (d *Decoder) Decode(v any) error {
 }
 
 func Unmarshal(data []byte, v any) error {
-	return NewDecoder(bytes.NewReader(data)).Decode(v)
+	d := NewDecoder(bytes.NewReader(data))
+	if err := d.Decode(v); err != nil {
+		return err
+	}
+	// Like encoding/json.Unmarshal, accept exactly one JSON value: anything
+	// but white space after it makes data invalid.
+	var extra json.RawMessage
+	if err := d.Decode(&extra); err != io.EOF {
+		return errors.New("invalid data after top-level JSON value")
+	}
+	return nil
 }
